@@ -1,7 +1,7 @@
 (** C16 — correspondence cases: inputs plus what the Go implementation returned. *)
 From Coq Require Import String List NArith ZArith Bool.
-From C33 Require Import Lib.Harness C16.Proto C16.Spec.
-From C33 Require Export C16.Model.
+From C33 Require Import Lib.Harness C16.Proto C16.Spec C16.ProtoUnknown C16.SpecExt.
+From C33 Require Export C16.Model C16.ModelUnknown C16.ModelEth.
 Import ListNotations.
 Open Scope list_scope.
 
@@ -45,6 +45,17 @@ Definition apply_palt (t : tx) (a : palt) : tx :=
 Definition or_same (enc : list N) (o : option (list N)) : list N :=
   match o with None => enc | Some b => b end.
 
+(** wire bytes relative to enc = encode_tx t0:
+    pre ++ firstn cut enc ++ ins ++ skipn cut enc, or given in full *)
+Inductive wire := WEdit (pre : list N) (cut : N) (ins : list N) | WRaw (w : list N).
+Definition wire_bytes (t0 : tx) (w : wire) : list N :=
+  match w with
+  | WRaw b => b
+  | WEdit pre cut ins =>
+      let enc := encode_tx t0 in
+      pre ++ firstn (N.to_nat cut) enc ++ ins ++ skipn (N.to_nat cut) enc
+  end.
+
 Inductive case :=
 | CSchema (txf sgf : list (N * N * list N))
     (* (field number, kind, name) of every exported field of types.Transaction /
@@ -59,17 +70,61 @@ Inductive case :=
        has the same Hash and FullHash *)
 | CPair (t1 : tx) (t2 : palt) (hash_eq full_eq : bool)
     (* Hash(t1) = Hash(t2), FullHash(t1) = FullHash(t2) *)
-| CVerify (ds : list (Z * bool * Z)) (h : Z) (t0 : tx) (alt : mut) (msg : list N) (drv_out impl : N).
+| CVerify (ds : list (Z * bool * Z)) (h : Z) (t0 : tx) (alt : mut) (msg : list N) (drv_out impl : N)
     (* ds: the driver registry configuration (id, enable, enable height); t0
        signed by Transaction.Sign; t' = apply_mut t0 alt presented: impl =
        t'.CheckSign(h).  msg = Encode(proto.Clone(t') with
        Signature cleared by the harness), drv_out = the selected driver's
        Validate(msg, pubkey, signature) called directly by the harness.
        Outcomes: 0 = false / error, 1 = true / nil, 2 = panic. *)
+| CWireErr (t0 : tx) (w : wire)
+    (* types.Decode(w) returned an error *)
+| CWire (ds : list (Z * bool * Z)) (h : Z) (t0 : tx) (w : wire)
+        (dec : palt) (sunk unk : list N)
+        (reenc clone_enc clonetx_enc : option (list N))
+        (hash_plain full_plain clone_ok : bool) (drv_out impl : N)
+    (* t0 signed by Transaction.Sign; d = types.Decode(w): declared fields =
+       apply_palt t0 dec, sunk / unk = ProtoReflect().GetUnknown() of d.Signature
+       / d.  strip d = a fresh struct with the declared fields only (built by
+       the harness).  reenc = Encode(d), clone_enc = Encode(d.Clone()),
+       clonetx_enc = Encode(CloneTx(d)), each None when equal to Encode(strip d).
+       hash_plain: d.Hash() = sha256(Encode(strip d, Signature = Header = nil));
+       full_plain: d.FullHash() = sha256(Encode(strip d)); clone_ok: Clone() and
+       CloneTx() keep Hash and FullHash.  drv_out = the driver's Validate on
+       Encode(strip d, Signature = nil); impl = d.CheckSign(h). *)
+| CResign (ds : list (Z * bool * Z)) (h : Z) (t : tx) (sunk unk : list N) (ty : Z)
+          (signed : option (list N)) (drv_out impl : N)
+    (* d decoded from wire bytes (declared fields t with the new signature,
+       unknown bytes sunk / unk before signing): d.Sign(ty, key) then
+       impl = d.CheckSign(h).  signed = the bytes the key was asked to sign
+       (None when equal to Encode(strip d, Signature = nil)); drv_out =
+       Validate(Encode(strip d, Signature = nil), pubkey, new signature). *)
+| CFrom (ds : list (Z * bool * Z)) (aids : list Z) (h : Z) (t0 : tx) (ty' : Z)
+        (drv_out chk : N) (f0 f1 : option (list N))
+    (* aids: address ids whose driver derives an address from a public key; t0 signed with its ty; presented
+       with ty' (nothing else changed): chk = CheckSign(h), f0 / f1 = From() of
+       t0 / of the presented transaction (None = panic) *)
+| CAction (msg xa : list N) (impl : option (list N * list N * N * list N * Z))
+    (* secp256k1eth/types.DecodeTxAction(msg): (Note, To, Amount, Code, Nonce) or
+       error; xa = address.ExecAddress(execer of the decoded msg) *)
+| CEth (ds : list (Z * bool * Z)) (h : Z) (cfg : Z * N) (t0 : tx) (alt : mut) (xa0 xa note : list N)
+       (ev : option (Z * Z * N * list N * option (list N))) (same_eth : bool)
+       (inner_msg inner_eth impl : N).
+    (* cfg = (evmChainID, coinsPrecision); t0 honest (an Ethereum-signed raw
+       transaction wrapped as rpc/ethrpc AssembleChain33Tx does, or signed by
+       Transaction.Sign), t' = apply_mut t0 alt presented: impl = t'.CheckSign(h).
+       xa0 / xa = ExecAddress(execer) of t0 / t'; note = DecodeTxAction(msg').Note
+       ([] on error); ev = the note parsed by go-ethereum (chain id, nonce, value,
+       data, to) or None; inner_msg / inner_eth = key parsing + Ecrecover +
+       VerifySignature over Keccak(msg') / over the London signing hash;
+       same_eth: the notes of t0 and t' both parse and have the same signing hash *)
 
 Definition schema_eqb (a b : list (N * N * list N)) : bool :=
   list_eqb (fun x y => match x, y with (f, k, n), (f', k', n') =>
                          N.eqb f f' && N.eqb k k' && bytes_eqb n n' end) a b.
+
+Definition mk_ds (dsl : list (Z * bool * Z)) : list drv :=
+  map (fun x => match x with (i, e, hh) => mk_drv i e hh end) dsl.
 
 Definition check_case (c : case) : verdict :=
   match c with
@@ -101,4 +156,84 @@ Definition check_case (c : case) : verdict :=
       let m := bytes_eqb msg (signed_bytes t') && N.eqb impl predicted in
       let s := spec_verify ds h t0 t' impl in
       (m, s, if s then 0%N else kf_classify t0 t' impl)
+  | CWireErr t0 w =>
+      mk_verdict (match wire_decode (wire_bytes t0 w) with None => true | Some _ => false end) true
+  | CWire dsl h t0 w dec sunk unk reenc0 clone_enc0 clonetx_enc0 hash_plain full_plain clone_ok drv_out impl =>
+      let ds := mk_ds dsl in
+      let di := mk_dtx (apply_palt t0 dec) sunk unk in
+      let plain_enc := encode_tx (d_tx di) in
+      let m :=
+        match wire_decode (wire_bytes t0 w) with
+        | None => false
+        | Some d =>
+            tx_eqb (d_tx d) (d_tx di) && bytes_eqb (d_sunk d) sunk && bytes_eqb (d_unk d) unk &&
+            bytes_eqb (encode_d d) (or_same plain_enc reenc0) &&
+            bytes_eqb (encode_d (clone_d d)) (or_same plain_enc clone_enc0) &&
+            bytes_eqb (encode_d (clone_tx_d d)) (or_same plain_enc clonetx_enc0) &&
+            Bool.eqb hash_plain (bytes_eqb (hash_pre_d d) (hash_pre (d_tx d))) &&
+            Bool.eqb full_plain (bytes_eqb (full_pre_d d) (full_pre (d_tx d))) &&
+            bytes_eqb (signed_bytes_d d) (signed_bytes (d_tx d)) &&
+            N.eqb impl (if check_sign_d ds (fun _ _ _ _ => true) d h then drv_out else 0%N)
+        end in
+      let s := spec_wire ds h t0 di hash_plain full_plain clone_ok impl in
+      (m, s, if s then 0%N
+             else if kf_unknown_ignored ds h t0 di hash_plain full_plain clone_ok impl then 8%N
+             else if spec_wire_hash di hash_plain full_plain && clone_ok then kf_classify t0 (d_tx di) impl
+             else 0%N)
+  | CResign dsl h t sunk unk ty signed0 drv_out impl =>
+      let ds := mk_ds dsl in
+      let d := mk_dtx t sunk unk in
+      let plain_msg := encode_tx (set_sig None t) in
+      let signed := or_same plain_msg signed0 in
+      let m := bytes_eqb (sign_msg_d d) signed &&
+               match signature t with
+               | Some s' =>
+                   Z.eqb (s_ty s') ty &&
+                   N.eqb impl (if check_sign_d ds (fun _ _ _ _ => true) (sign_d ty (s_pub s') (s_sig s') d) h
+                               then drv_out else 0%N)
+               | None => false
+               end in
+      let s := spec_resign ds h ty impl in
+      (m, s, if s then 0%N else if kf_resign_unknown d plain_msg signed impl then 9%N else 0%N)
+  | CFrom dsl aids h t0 ty' drv_out chk f0 f1 =>
+      let ds := mk_ds dsl in
+      let t' := apply_mut t0 (MTy ty') in
+      let ty0 := match signature t0 with Some s0 => s_ty s0 | None => 0%Z end in
+      let m := N.eqb chk (if check_sign ds (fun _ _ _ _ => true) t' h then drv_out else 0%N) &&
+               Bool.eqb (match f0 with None => true | Some _ => false end) (from_panics aids ty0) &&
+               Bool.eqb (match f1 with None => true | Some _ => false end) (from_panics aids ty') &&
+               match f0, f1 with
+               | Some a, Some b => Bool.eqb (bytes_eqb a b) (Z.eqb (addr_id ty0) (addr_id ty'))
+               | _, _ => true
+               end in
+      let s1 := spec_from_bound ds aids h ty0 ty' chk in
+      let s2 := spec_from_total chk f1 in
+      (m, s1 && s2,
+       if s1 && s2 then 0%N
+       else if negb s1 then (if kf_ty_unbound ty0 ty' chk then 10%N else 0%N)
+       else if kf_from_panic aids ty' chk f1 then 11%N else 0%N)
+  | CAction msg xa impl =>
+      let mo := option_map (fun a => (a_note a, a_to a, a_amount a, a_code a, a_nonce a))
+                           (decode_tx_action (fun _ => xa) msg) in
+      let m := option_eqb (fun x y => match x, y with
+                 | (n1, t1, a1, c1, k1), (n2, t2, a2, c2, k2) =>
+                     bytes_eqb n1 n2 && bytes_eqb t1 t2 && N.eqb a1 a2 && bytes_eqb c1 c2 && Z.eqb k1 k2
+                 end) mo impl in
+      mk_verdict m true
+  | CEth dsl h cfg t0 alt xa0 xa note ev same_eth inner_msg inner_eth impl =>
+      let ds := mk_ds dsl in
+      let t' := apply_mut t0 alt in
+      let evv := option_map (fun x => match x with (c, n, v, dt, to) => mk_ev c n v dt to [] end) ev in
+      let inner := fun (src : hsrc) (_ _ : list N) =>
+                     match src with HMsg _ => N.eqb inner_msg 1 | HEth _ => N.eqb inner_eth 1 end in
+      let vfy := verify_with_eth (mk_ec (fst cfg) (snd cfg)) (fun _ => xa) (fun _ => evv) inner
+                                 (fun _ _ _ _ => false) in
+      let act := decode_tx_action (fun _ => xa) (signed_bytes t') in
+      let m := N.eqb impl (if check_sign ds vfy t' h then 1%N else 0%N) &&
+               bytes_eqb (match act with Some a => a_note a | None => [] end) note in
+      let s := spec_verify ds h t0 t' impl in
+      (m, s, if s then 0%N
+             else if kf_eth_unbound xa0 xa t0 t' same_eth impl then 12%N
+             else if kf_eth_sign_note xa t0 t' (match ev with None => true | Some _ => false end) impl then 13%N
+             else kf_classify t0 t' impl)
   end.
